@@ -50,7 +50,7 @@ PROPERTIES["C12"] = dict(
     ],
 )
 
-PIPE_FILES = ["pipeline/zz_verif_pipe.go", "pipeline/zz_verif_p08.go", "pipeline/zz_verif_p01.go", "pipeline/zz_verif_p01b.go", "pipeline/zz_verif_p07.go", "config::config/zz_verif_export.go", "annotation::annotation/zz_verif_export.go", "assertion/global::global/zz_verif_export.go"]
+PIPE_FILES = ["pipeline/zz_verif_pipe.go", "pipeline/zz_verif_p08.go", "pipeline/zz_verif_p01.go", "pipeline/zz_verif_p01b.go", "pipeline/zz_verif_p01x.go", "pipeline/zz_verif_p01r.go", "pipeline/zz_verif_p07.go", "config::config/zz_verif_export.go", "annotation::annotation/zz_verif_export.go", "assertion/global::global/zz_verif_export.go"]
 INFER_FILES = ["inference/zz_verif_c05.go", "inference/zz_verif_c05l2.go", "inference/zz_verif_c06.go", "inference/zz_verif_c04.go", "inference/zz_verif_c15.go", "inference/zz_verif_c15m.go", "inference/zz_verif_c08.go", "inference/zz_verif_registry.go",
                "annotation::annotation/zz_verif_export.go"]
 
@@ -464,5 +464,37 @@ PROPERTIES["C08"]["runs"] += [
 ]
 PROPERTIES["C08"]["explanation"] += (" P08 also covers named results with bare returns; Harness_P08_Ok is the same family for the (value, ok) form with constant ok operands (two return statements, explicit or through named results, "
     "forwarding, seven caller forms incl. an overwritten ok variable).")
-PROPERTIES["C08"]["bounds"]["quick"] = PROPERTIES["C08"]["bounds"]["quick"].replace("all 440 callee x caller programs of the P08 family", "all 1144 callee x caller programs of the P08 family (error form) and all 448 of the (value, ok) form")
+PROPERTIES["C08"]["bounds"]["quick"] = PROPERTIES["C08"]["bounds"]["quick"].replace("all 440 callee x caller programs of the P08 family", "all 1716 callee x caller programs of the P08 family (error form) and all 672 of the (value, ok) form")
 PROPERTIES["C08"]["outside"] = [o.replace("ok-returning functions and named results at source level; ", "non-constant ok operands; the precision clause (A2) for bare returns of a named ok result; ") for o in PROPERTIES["C08"]["outside"] if o != "ok-returning functions"]
+
+_P01X = dict(pkg="accumulation", files=PIPE_FILES, entry="Harness_P01X", quick=dict(params=dict(STMTS=2, COMPOUND=5)), thorough=dict(params=dict(STMTS=3, COMPOUND=5)), args=dict(sample_every=61, max_samples=16))
+PROPERTIES["C01"]["runs"] += [_P01X]
+PROPERTIES["C01"]["explanation"] += (" P01X splits the P01 programs over two packages: the callee and the package-level pointer live in a dependency that is analysed first, its facts (inferred map, nolint) are handed to the importer, "
+    "which sees the dependency through a fresh type-check of its source (fresh type objects, as with export data).")
+PROPERTIES["C01"]["bounds"]["quick"] += "; P01X: the 1043 two-statement programs split over two packages (callee directly or through an unexported helper)"
+PROPERTIES["C01"]["bounds"]["thorough"] += "; P01X: the three-statement programs split over two packages"
+PROPERTIES["C01"]["outside"] = [o.replace("; more than one package", "; more than two packages; facts are handed over by reference (the gob codec is decided by C06)") for o in PROPERTIES["C01"]["outside"]]
+PROPERTIES["C03"]["runs"] += [dict(_P01X, name="_modular")]
+PROPERTIES["C03"]["explanation"] += (" Source level (P01X): " + PIPE_EXPL + "every program of the C01 grammar is analysed twice - split over a dependency (callee, package-level pointer) and an importer with facts handed over, "
+    "and as one package with the dependency's declarations first - and both must report, and report equally many diagnostics.")
+PROPERTIES["C03"]["bounds"]["quick"] += "; source level: the 1043 two-statement programs of the C01 grammar (callee directly or through an unexported helper), two packages vs one"
+PROPERTIES["C03"]["bounds"]["thorough"] += "; source level: the three-statement programs"
+
+PROPERTIES["C01"]["runs"] += [
+    dict(pkg="accumulation", files=PIPE_FILES, entry="Harness_P01", name="_global_forms", quick=dict(params=dict(STMTS=1, COMPOUND=5, GINIT=5)), thorough=dict(params=dict(STMTS=2, COMPOUND=5, GINIT=5)),
+         args=dict(sample_every=61, max_samples=16)),
+    dict(pkg="accumulation", files=PIPE_FILES, entry="Harness_P01", name="_init_conditional", quick=dict(params=dict(STMTS=1, COMPOUND=5, GFORM=5)), thorough=dict(params=dict(STMTS=2, COMPOUND=5, GFORM=5)),
+         args=dict(sample_every=61, max_samples=8)),
+]
+PROPERTIES["C01"]["explanation"] += (" The package-level pointer is also declared in five initialised forms (no initialiser, `= nil`, `= (nil)`, `= new(int)`, assigned in init()); a sixth form - assigned only conditionally inside init() - "
+    "is a recorded known finding of NilAway (false negative) and runs as its own configuration with class-tagged assertion ids.")
+PROPERTIES["C01"]["bounds"]["quick"] += "; global declaration forms: 5 forms x the 28 one-statement programs; conditional-init form: 28 programs (known finding: 2 fail)"
+PROPERTIES["C01"]["bounds"]["thorough"] += "; global declaration forms: 5 forms x the 742 two-statement programs; conditional-init form: 742 programs (known finding: 82 fail)"
+
+PROPERTIES["C01"]["runs"] += [
+    dict(pkg="accumulation", files=PIPE_FILES, entry="Harness_P01R", quick=dict(params=dict(KMAX=9)), thorough=dict(params=dict(KMAX=9)), args=dict(sample_every=17, max_samples=16)),
+]
+PROPERTIES["C01"]["explanation"] += (" P01R: rotations of 2-9 pointer variables inside a loop with an opaque bound, one initialiser nil, optionally one taken from a parameter, j0 dereferenced after the loop; the solver picks the iteration "
+    "count that brings the nil to j0. Rotations whose nil needs six or more rounds are a recorded known finding (NilAway's documented StableRoundLimit).")
+PROPERTIES["C01"]["bounds"]["quick"] += "; P01R: all 336 rotation programs with 2-9 variables (known finding: the 21 with the nil six or more positions away fail)"
+PROPERTIES["C01"]["bounds"]["thorough"] += "; P01R as quick"
